@@ -2,6 +2,7 @@ import MgpuModel.Util
 import MgpuModel.C06_Lanes
 import MgpuModel.Gen.VectorHandlers
 import MgpuModel.Gen.LaneBodies
+import MgpuModel.C06_Deep
 /-! # C06 — what a vector handler's fact record must satisfy, and the line-protocol driver
 
 `FitsSkeleton` is evaluated (by `decide`) on the records regenerated from the Go source on every run
@@ -209,7 +210,9 @@ def nanCanon (isF : Bool) (dw v : Nat) : String :=
   let nan64 := v / 4503599627370496 % 2048 == 2047 && v % 4503599627370496 != 0
   if isF && ((dw == 32 && nan32) || (dw == 64 && nan64)) then "nan" else Util.toHex v
 
-def bodyCase (arch name : String) (kv : List String) : String :=
+/-- `wrap`: the line is an SDWA instruction of a VOP2 opcode: the handler runs under `emu.NewSDWAState`
+    (`vop2Handler`), the operand values on the line are the raw register values -/
+def bodyCaseW (wrap : Bool) (arch name : String) (kv : List String) : String :=
   let hx := fun k => (Util.kvHex? kv k).getD 0
   let bv := fun (w : Nat) k => BitVec.ofNat w (hx k)
   let u : Uni :=
@@ -218,9 +221,10 @@ def bodyCase (arch name : String) (kv : List String) : String :=
       -- consulted by float handlers only (no body correspondence for those)
       opSel := 0, opSelHi := 0, src0Neg := false, src1Neg := false, src2Neg := false, src0Abs := false, src1Abs := false
       src2Abs := false, k2 := 0 }
-  match resolveLane arch name u with
+  match resolveLane arch name (if wrap then u.plain else u) with
   | none => "untranslated"
-  | some h =>
+  | some h0 =>
+    let h := if wrap then vop2Handler h0 u else h0
     let isF := Gen.Lane.coverage.any (fun r => r.arch == h.arch && r.name == h.name && (match r.cov with | .translatedF _ => true | _ => false))
     if isF && !Gen.Lane.exactFloat.contains (h.arch, h.name) then "float-body-not-tied" else
     if !h.ok u then "fault" else
@@ -241,6 +245,8 @@ def bodyCase (arch name : String) (kv : List String) : String :=
     let sd' := if target == "sd" then o.acc else bv 64 "sd"
     s!"d={d} vcc={Util.toHex vcc'.toNat} sd={Util.toHex sd'.toNat}"
 
+def bodyCase (arch name : String) (kv : List String) : String := bodyCaseW false arch name kv
+
 /-! ## `c06 gorun`: a whole translated handler (`goRun`: the loop, the guard, the 64-bit accumulator) against
 the real `ALU.Run` under an arbitrary EXEC. Register layout of the case: v0:1 = src0, v2:3 = src1, v4:5 = src2
 (or a uniform value), v6:7 = dst. -/
@@ -253,12 +259,13 @@ def uniOfKv (kv : List String) : Uni :=
     opSel := 0, opSelHi := 0, src0Neg := false, src1Neg := false, src2Neg := false, src0Abs := false, src1Abs := false
     src2Abs := false, k2 := 0 }
 
-def goRunCase (arch name : String) (kv : List String) : String :=
+def goRunCaseW (wrap : Bool) (arch name : String) (kv : List String) : String :=
   let hx := fun k => (Util.kvHex? kv k).getD 0
   let u := uniOfKv kv
-  match resolveLane arch name u with
+  match resolveLane arch name (if wrap then u.plain else u) with
   | none => "untranslated"
-  | some h =>
+  | some h0 =>
+    let h := if wrap then vop2Handler h0 u else h0
     if !h.ok u then "fault" else
     let lst := fun k => (((Util.kv? kv k).bind hexList?).getD []).toArray
     let s0 := lst "s0"
@@ -291,6 +298,19 @@ def goRunCase (arch name : String) (kv : List String) : String :=
     let vcc' := if target == "vcc" then g.acc else vcc
     let sd' := if target == "sd" then g.acc else BitVec.ofNat 64 (hx "sd")
     s!"d={if dw == 0 then "-" else ",".intercalate ds} vcc={Util.toHex vcc'.toNat} sd={Util.toHex sd'.toNat}"
+
+def goRunCase (arch name : String) (kv : List String) : String := goRunCaseW false arch name kv
+
+/-- `c06 rfl <arch> exec= k=<v|u> s0=<64 values>`: `v_readfirstlane_b32` (the destination is an SGPR) -/
+def rflCase (kv : List String) : String :=
+  let exec := BitVec.ofNat 64 ((Util.kvHex? kv "exec").getD 0)
+  let s0 := (((Util.kv? kv "s0").bind hexList?).getD []).toArray
+  let vgpr : Nat → Nat → Nat := fun l r => if r == 0 then s0.getD l 0 % 4294967296 else 0
+  let src : Opnd := if (Util.kv? kv "k").getD "v" == "u" then .uni (BitVec.ofNat 64 (s0.getD 0 0)) else .vgpr 0 1
+  let v := goReadFirstLane src exec vgpr
+  let after := goReadFirstLaneVgpr src (.uni 0#64) exec vgpr
+  let same := (List.range 64).all fun l => after l 0 == vgpr l 0
+  s!"sd={Util.toHex (v.toNat % 4294967296)} vsame={if same then 1 else 0}"
 
 /-! ## `c06 mbody`: one iteration of a translated DS / FLAT body against the real ALU (one active lane).
 The memory the loads see is given as a window `wb` (base address) / `win` (bytes); outside it: 0. -/
@@ -369,6 +389,9 @@ def handle (line : String) : String :=
     s!"n={names.length} {",".intercalate names}"
   | _ :: "body" :: arch :: name :: rest => bodyCase arch name rest
   | _ :: "gorun" :: arch :: name :: rest => goRunCase arch name rest
+  | _ :: "sdwa" :: arch :: name :: rest => bodyCaseW true arch name rest
+  | _ :: "sdwarun" :: arch :: name :: rest => goRunCaseW true arch name rest
+  | _ :: "rfl" :: _ :: rest => rflCase rest
   | _ :: "mbody" :: arch :: name :: rest => mbodyCase arch name rest
   | _ :: "misfits" :: _ => s!"{misfits}"
   | _ => "bad-op"
